@@ -89,7 +89,11 @@ def run(ctx, prop=PROP):
         # marginal differencing of the REAL function on symbolic cell contents: all data, bounded shapes (cv/kvc/symdiff.py)
         from ..kvc import symdiff
 
-        res, secs = symdiff.run(ctx.tier)
+        try:
+            res, secs = symdiff.run(ctx.tier)
+        except symdiff.Stale as e:
+            res, secs = [], 0.0
+            ctx.notes.append("proof_stale: %s - the symbolic differencing obligations are not generated; the bounded chain decides" % e)
         badsym = [r for r in res if r[1] != "unsat"]
         for name, verdict, detail in badsym[:3]:
             ctx.violation(core.Violation("C02", name, "the real _compute_common_cells_from_marginal_diffs, run on symbolic cell contents, does not return the "
